@@ -55,4 +55,6 @@ VARIANTS += [
     V("first-trial-clamped-to-twice-dt-min", CORE + "base_solver.py", "            # The initial step size is a proposal like any later one: no trial step is shorter than `dt_min`.\n            step_size = self.dt_min\n", "            step_size = 2 * self.dt_min\n", rule="R14.7"),
     V("twin-first-trial-max", CORE + "base_solver.py", "        if self.adaptive and step_size < self.dt_min:\n            # The initial step size is a proposal like any later one: no trial step is shorter than `dt_min`.\n            step_size = self.dt_min\n",
       "        if self.adaptive:\n            step_size = max(step_size, self.dt_min)\n", expect="silent"),
+    V("reject-shrink-factor-unclamped", CORE + "adaptive_stepping.py", "    factor = min(facmax, max(facmin, factor))\n",
+      "    factor = min(facmax, factor) if error_estimate > 1 else min(facmax, max(facmin, factor))\n", rule="R14.3"),
 ]
